@@ -64,7 +64,7 @@ def gen(rng, n, tier):
             else:
                 spec = ["exp", fl(rng.uniform(-6, 6)), fl(rng.uniform(0.05, 1.5)), nb]
             sl = [[a, b] for a, b in ((rng.randint(0, nb), rng.randint(0, nb + 1)) for _ in range(4)) if a <= b]
-            yield [["bucket", "repr/" + cls], ["kind", "repr"], ["spec", spec], ["slice_args", sl], ["perturb", rng.choice([0, 0, 1])]]
+            yield [["bucket", "repr/" + cls], ["kind", "repr"], ["spec", spec], ["slice_args", sl], ["perturb", rng.choice([0, 0, 1, 2])]]
         elif r < 0.75:
             meth = rng.choice(["numpy", "numpy", "fixed_width", "fixed_width", "integer", "pretty", "pretty", "quantile", "exponential", "static", "countname", "scott", "freedman", "blocks"])
             data = gen_data(rng, positive=meth == "exponential", n=(rng.choice([8, 20, 60]) if meth in ("scott", "freedman", "blocks") else None))
@@ -120,6 +120,19 @@ def gen(rng, n, tier):
             if meth in ("scott", "freedman", "blocks"): c.append(["sorted", sorted(data)])
             c.append(["via", rng.choice(["factory", "calculate_1d_bins"])])
             yield c
+            if meth == "numpy" and rng.random() < 0.25:
+                # a range too narrow for the bins: values a few representable numbers apart
+                import numpy as np
+                k = rng.choice([3, 5, 10, 17])
+                base = float(rng.choice(data)) or 1.0
+                steps = sorted(rng.sample(range(1, k), rng.randint(1, min(3, k - 1))))
+                vals, cur, done = [Fr(base)], base, 0
+                for st in steps:
+                    for _ in range(st - done): cur = float(np.nextafter(cur, math.inf))
+                    done = st; vals.append(Fr(cur))
+                rng.shuffle(vals)
+                yield [["bucket", "rule/numpy_narrow"], ["kind", "rule"], ["method", "numpy_narrow"], ["data", vals], ["range", "none"], ["must_refuse", "F"],
+                       ["bin_count", k], ["via", rng.choice(["factory", "calculate_1d_bins"])]]
         elif r < 0.87:
             m = rng.choice(["sturges", "sqrt", "rice", "default", "doane"])
             if m == "doane":
@@ -197,6 +210,15 @@ def impl(case):
                 arr = np.array(b.bins, dtype=float); arr[-1, 1] = np.nextafter(arr[-1, 1], np.inf)
                 other = B.StaticBinning(arr) if type(b).__name__ == "StaticBinning" else B.NumpyBinning(np.concatenate([arr[:1, 0], arr[:, 1]]))
                 same = False
+            if d["perturb"] == 2 and type(b).__name__ == "StaticBinning" and b.bin_count >= 2:
+                # the same bins with a hair-line gap / a real gap in front of the last bin
+                arr = np.array(b.bins, dtype=float)
+                arr[-1, 0] = np.nextafter(arr[-1, 0], np.inf) if d["slice_args"] and len(d["slice_args"]) % 2 else (arr[-1, 0] + arr[-1, 1]) / 2
+                other = B.StaticBinning(arr); same = False
+            def eq_both():       # == in both directions, after the edge representations of b have been read (and cached)
+                try: r1, r2 = bool(b == other), bool(other == b)
+                except Exception: return not same
+                return (r1 and r2) if same else (r1 or r2)
             def mask():
                 e, m = b.numpy_bins_with_mask
                 return [[float(x) for x in e], [int(x) for x in m]]
@@ -206,7 +228,7 @@ def impl(case):
                     ["is_consecutive", _tf(b.is_consecutive())], ["is_regular", _try(lambda: _tf(b.is_regular()))],
                     ["slices", [_try(lambda a=a, e=e: slice_obs(b[a:e])) for a, e in d["slice_args"]]],
                     ["copy_bins", bins_of(c)], ["copy_eq", _tf(c == b and c is not b)], ["eq_self", _tf(b == b)],
-                    ["as_static_bins", bins_of(b.as_static())], ["as_fixed_width", afw(b)], ["eq_other", _tf(b == other)], ["other_same", _tf(same)]]
+                    ["as_static_bins", bins_of(b.as_static())], ["as_fixed_width", afw(b)], ["eq_other", _tf(eq_both())], ["other_same", _tf(same)]]
         if d["kind"] == "rule":
             data = np.array([float(x) for x in d["data"]])
             meth = d["method"]; kw = {}
@@ -222,6 +244,9 @@ def impl(case):
                         b = B.numpy_binning(data, k, **kw) if via == "factory" else calculate_1d_bins(data, k, **kw)
                     dd = data if "range" not in kw else data[(data >= kw["range"][0]) & (data <= kw["range"][1])]
                     extra = [["ref", [float(x) for x in np.histogram_bin_edges(dd, k, **kw)]], ["k", int(k)]]
+                elif meth == "numpy_narrow":
+                    k = d["bin_count"]
+                    b = B.numpy_binning(data, k) if via == "factory" else calculate_1d_bins(data, k)
                 elif meth == "fixed_width":
                     kw2 = dict(kw, bin_width=float(d["bin_width"]), includes_right_edge=d["incl"] == "T")
                     if d["shift_arg"] != "none": kw2["bin_shift"] = float(d["shift_arg"])
